@@ -190,7 +190,7 @@ class _Replace(Client):
                 return (self._advance(state, "joined", node, "join of the retired worker"),)
             if name == "create":
                 return (self._advance(state, "created", node, "creation of the successor"),)
-            if name == "_init_process":
+            if name == self.pf.init_process_name:
                 return (self._advance(state, "inited", node, "initialisation of the successor"),)
             if name == "start":
                 return (self._advance(state, "started", node, "start of the successor"),)
@@ -252,12 +252,12 @@ def r4_replace_order(prog, rep: Report, pf: PoolFacts):
     rep.check("C03.R4", run_, "index", wid_cmp and idx_ok, "the successor replaces the entry whose wid equals the received wid",
               "the successor is not stored at the index of the process whose wid equals the received wid",
               scenario="the successor overwrites a live worker's slot: that worker is never stopped/joined and the retired one stays listed")
-    fi = pf.fpool.methods.get("_init_process")
+    fi = pf.fpool.methods.get(pf.init_process_name)
     if fi is None:
-        rep.unrec("C03.R4", (pf.fpool.relpath, pf.fpool.short, pf.fpool.node.lineno), "init-process", "FactoryFunctorPool._init_process not found")
+        rep.unrec("C03.R4", (pf.fpool.relpath, pf.fpool.short, pf.fpool.node.lineno), "init-process", "FactoryFunctorPool does not extend the worker initialisation")
     else:
         rep.fn(fi)
-        calls_base = any(isinstance(c.func, ast.Attribute) and c.func.attr == "_init_process" and isinstance(c.func.value, ast.Call)
+        calls_base = any(isinstance(c.func, ast.Attribute) and c.func.attr == pf.init_process_name and isinstance(c.func.value, ast.Call)
                          and src(c.func.value.func) == "super" for c in calls_in(fi.node))
         sets_q = any(isinstance(n, ast.Assign) and dotted(n.targets[0]) and dotted(n.targets[0])[-1] in pf.alias
                      and pf.alias[dotted(n.targets[0])[-1]] == pf.replace_q for n in walk_own(fi.node))
